@@ -127,6 +127,9 @@ def scenario(draw) -> Dict[str, Any]:
     return {'shared': shared, 'host_addrs': host_addrs,'seed': draw(st.integers(0, 10**6)), 'hosts': n_hosts, 'joins': joins, 'max_delay': draw(st.sampled_from([0, 20, 100, 100])),
             'dup_pct': draw(st.sampled_from([0, 0, 20])), 'jitter': draw(st.sampled_from(['seed', 'seed', 'seed', 'ends'])),
             'services': services, 'browsers': browsers, 'ops': ops,
+            # a third of the scenarios are looked at a second time 80 or 160 minutes after the settling point (past one or two
+            # full pointer lifetimes): the refresh queries of the browsers have to keep every registered instance reported
+            'late_s': draw(st.sampled_from([0, 0, 0, 0, 4800, 9600])),
             'drops': [[draw(st.integers(0, 999)), draw(st.sampled_from(['all', 'one'])), draw(st.sampled_from(['any', 'critical', 'critical', 'goodbye', 'goodbye-last']))]
                       for _ in range(3)]}
 
@@ -348,6 +351,11 @@ class Run:
         self.final_live = {bi: {t: set(v) for t, v in lst.live().items()} for bi, lst in self.listeners.items()}
         self.events = {bi: list(lst.events) for bi, lst in self.listeners.items()}
         await asyncio.sleep(4.0)        # let lookups started late finish
+        self.late_live = None
+        if case.get('late_s'):
+            await asyncio.sleep(case['late_s'])
+            self.late_live = {bi: {t: set(v) for t, v in lst.live().items()} for bi, lst in self.listeners.items()}
+            self.late_events = {bi: list(lst.events) for bi, lst in self.listeners.items()}
 
 
 def _all():
@@ -416,6 +424,20 @@ def judge(case: Dict[str, Any], run: Run, label: str) -> None:
                                      missing=sorted(want - got), stale=sorted(got - want),
                                      callbacks=[(x['kind'], x['name'], rel(x['t'])) for x in ev if x['type'] == t][-8:]),
                                 tag='not-converged:' + ('missing' if want - got else 'stale'))
+    # nothing changes after the settling point: the same set must still be reported one or two pointer lifetimes later
+    if run.late_live is not None:
+        for bi, b in enumerate(case['browsers']):
+            if bi not in run.listeners or bi in run.browser_cancelled or b['host'] in run.host_closed_at:
+                continue
+            for ti in b['types']:
+                t = TYPES[ti]
+                got, want = run.late_live[bi].get(t, set()), expected[t]
+                if got != want:
+                    raise Violation(f"browser no longer reports the registered instances of its type {case['late_s']} s after it had converged "
+                                    '(nothing was changed in between)',
+                                    dict(det, browser=bi, host=b['host'], type=t, reported=sorted(got), registered=sorted(want),
+                                         callbacks=[(x['kind'], x['name'], rel(x['t'])) for x in run.late_events[bi] if x['type'] == t][-8:]),
+                                    tag='not-stable:' + ('missing' if want - got else 'stale'))
     # lookups from inside Added callbacks
     for lk in run.lookups:
         if not lk['done']:
@@ -536,5 +558,7 @@ def check(case: Dict[str, Any]) -> Dict[str, Any]:
         classes.append('duplication')
     if base.lookups:
         classes.append('lookups-from-callback')
+    if case.get('late_s'):
+        classes.append('second-look-after-%d-s' % case['late_s'])
     return {'nontrivial': used_drop or base.in_flight_browser_start, 'classes': classes, 'evaluations': runs,
             'max': {'datagrams': n, 'runs': runs, 'lookups': len(base.lookups)}, 'sample': {'case': case, 'datagrams': n, 'runs': runs}}
